@@ -396,6 +396,56 @@ def run_edit(case: dict) -> Outcome:
     return out
 
 
+# --------------------------------------------------------------------------- inheritance family
+
+
+def run_inherit(case: dict) -> Outcome:
+    """A Protocol that extends an already-served Protocol must be described by its *own* full method set."""
+    import types as _types
+    from typing import Protocol as _Protocol
+
+    out = Outcome()
+    a = case["spec"]
+    extra = case["extra"]
+    names_a = {m["name"] for m in a["methods"]}
+    overrides = [m for m in extra if m["name"] in names_a]
+    merged = [m for m in a["methods"] if m["name"] not in {e["name"] for e in extra}] + list(extra)
+    full = dict(a, name=a["name"] + "V2", methods=merged, server_id=a["server_id"] + "b")
+    out.nontrivial = True
+    out.label("override" if overrides else "add_only", f"order={case['order']}")
+    base_proto = build.build_protocol(a)
+
+    def body(ns: dict[str, Any]) -> None:
+        ns.update({m["name"]: build._make_function(m, for_impl=False) for m in extra})
+        if a.get("version") is not None:
+            ns["protocol_version"] = a["version"]
+
+    derived_proto = _types.new_class(full["name"], (base_proto, _Protocol), {}, body)
+
+    def serve_base() -> Any:
+        return build.RpcServer(base_proto, build.build_impl(a), enable_describe=True, server_id=a["server_id"])
+
+    def serve_derived() -> Any:
+        return build.RpcServer(derived_proto, build.build_impl(full), enable_describe=True, server_id=full["server_id"])
+
+    if case["order"] == "base_first":
+        sb, sd = serve_base(), None
+        sd = serve_derived()
+    else:
+        sd = serve_derived()
+        sb = serve_base()
+    for tag, server, spec in (("base", sb, a), ("derived", sd, full)):
+        vclass = _version_class(spec, None)
+        for path, got in _observe(server, None, real_pipe=False).items():
+            n0 = len(out.violations)
+            _check_faithful(out, spec, server.protocol_hash, path, got, vclass)
+            out.violations[n0:] = [(f"inherit/{tag}/{case['order']}/{k}", w) for k, w in out.violations[n0:]]
+    if ref.wire_surface(a) != ref.wire_surface(full) and sb.protocol_hash == sd.protocol_hash:
+        out.fail(f"inherit/hash_shared_with_base/{case['order']}", f"derived protocol adds/overrides {[m['name'] for m in extra]} but hashes like its base: {sb.protocol_hash}")
+    out.note = {"base": sorted(names_a), "extra": [m["name"] for m in extra]}
+    return out
+
+
 # --------------------------------------------------------------------------- cross-process family
 
 
@@ -661,6 +711,27 @@ _xproc_case = st.builds(
 )
 
 
+def _inherit_case() -> Any:
+    @st.composite
+    def build_case(draw: Any) -> dict:
+        a = draw(_spec())
+        if not a["methods"]:
+            a = dict(a, methods=[draw(_new_method())])
+        n = draw(st.integers(1, 2))
+        extra = []
+        for i in range(n):
+            m = dict(draw(_new_method()))
+            if draw(st.integers(0, 3)) == 0:
+                m["name"] = a["methods"][0]["name"]  # override an inherited method with a different signature
+            else:
+                m["name"] = f"extra_{i}"
+            if m["name"] not in {e["name"] for e in extra}:
+                extra.append(m)
+        return {"spec": a, "extra": extra, "order": draw(st.sampled_from(["base_first", "base_first", "derived_first"]))}
+
+    return build_case()
+
+
 def main(chk: Check) -> None:
     # one Hypothesis run per edit kind (same family: the case format and run_case are identical), so every kind the
     # statement lists gets its share of the budget instead of whatever the generator happens to favour
@@ -669,3 +740,4 @@ def main(chk: Check) -> None:
         if chk.replay is not None:
             break
     chk.explore("xproc", _xproc_case, run_xproc, quick=3, thorough=48, shrink=False)
+    chk.explore("inherit", _inherit_case(), run_inherit, quick=40, thorough=800)
